@@ -18,6 +18,23 @@ from vf.core import Ob, scenario, simple_ob, sym_run, z3_valid, PROVED
 from vf.jasmrt import J, ensure
 from vf.pyvc import Name, SymBool, SymSeq, ctx
 
+
+def ident_of(x) -> str:
+    """identity of an opaque value: Name ident, or the rendering of a structured string"""
+    if isinstance(x, Name):
+        return x.ident
+    if isinstance(x, str):
+        try:
+            return ctx().table.show(str.__str__(x)).strip("‹›")
+        except Exception:
+            return str.__str__(x)
+    return repr(x)
+
+
+def addr_stub(t):
+    from vf import sstr
+    return sstr.var("addr(" + ident_of(t) + ")", "[^\\n]*")
+
 CC = "jasm.consumer.CompleteConsumer"
 MO = "jasm.matched_observers.MatchedObserver"
 MP = "jasm.match.MasterOfPuppets"
@@ -54,7 +71,9 @@ class MatchStub:
     def group(self, n=0):
         if n != 0:
             raise pyvc.Unsupported("group(n) of a match stub")
-        return Name("text(" + self.ident + ")")
+        # the matched text: any text, possibly EMPTY (a rule that can match zero instructions)
+        from vf import sstr
+        return sstr.var("text(" + self.ident + ")", "[^\\n]*")
 
     def render(self, c):
         return f"match({self.ident})"
@@ -124,7 +143,7 @@ class MatchLoop:
     def check(self, seq: SymSeq, at: str):
         al = self.mo.addr_list
         want = "addr(text(m_k))" if self.only_addr else "text(m_k)"
-        ok = (len(al) == len(self.pre) + 2 and isinstance(al[-2], Splice) and isinstance(al[-1], Name) and al[-1].ident == want
+        ok = (len(al) == len(self.pre) + 2 and isinstance(al[-2], Splice) and isinstance(al[-1], str) and ident_of(al[-1]) == want
               and al[:len(self.pre)] == self.pre)
         self.obs.append(simple_ob(self.base + ":INV-addr_list", self.func, "INV",
                                   "Inv preserved: after the body on M[k], addr_list = pre ++ map(f, M[:k]) ++ [f(M[k])], f = "
@@ -134,7 +153,7 @@ class MatchLoop:
                                   self.mo._matched is True, ["C11", "C12"], detail=repr(self.mo._matched), witness=repr(self.mo._matched)))
         new = self.loglist[len(self.prelog) + 1:]
         okl = len(new) == 1 and new[0][0] == "info" and new[0][1] == "Matched address: %s" and len(new[0][2]) == 1 \
-            and isinstance(new[0][2][0], Name) and new[0][2][0].ident == want
+            and isinstance(new[0][2][0], str) and ident_of(new[0][2][0]) == want
         self.obs.append(simple_ob(self.base + ":INV-log", self.func, "INV",
                                   "Inv preserved: exactly one INFO record 'Matched address: <element>' per appended element",
                                   okl, ["C20", "C12"], detail=repr(new), witness=repr(new)))
@@ -148,7 +167,7 @@ def _mk_consumer(mode_all: bool, only_addr: bool, relog: List[Any], loglist: Lis
     mode = J.gd.MatchingSearchMode.all_finds if mode_all else J.gd.MatchingSearchMode.first_find
     c = J.consumer.CompleteConsumer(regex_rule=Name("rule"), matched_observer=mo, matching_mode=mode, return_only_address=only_addr)
     # the address observer is a function under its own contract (get_first_addr below)
-    c.get_first_addr_from_regex_result = lambda t: Name("addr(" + t.ident + ")")
+    c.get_first_addr_from_regex_result = addr_stub
     return c, mo
 
 
@@ -237,7 +256,9 @@ def match_first():
             c, mo = _mk_consumer(False, only_addr, relog, loglist)
             c._all_instructions = Name("stream")
             c.do_match_first_occurence()
-            return [mo, list(relog), list(loglist)]
+            # identities are rendered while the context is active
+            mo.addr_list[:] = [("id", ident_of(x)) for x in mo.addr_list]
+            return [mo, list(relog), [(a, b, ident_of(c_[0]) if c_ else None) for (a, b, c_) in loglist]]
         try:
             run = sym_run(fn)
         finally:
@@ -253,8 +274,8 @@ def match_first():
             kinds.add(found)
             al = mo.addr_list
             if found:
-                ok = len(al) == 1 and isinstance(al[0], Name) and al[0].ident == want and mo._matched is True
-                okl = len(ll) == 1 and ll[0][1] == "Matched address: %s" and ll[0][2][0].ident == want
+                ok = len(al) == 1 and isinstance(al[0], tuple) and al[0][1] == want and mo._matched is True
+                okl = len(ll) == 1 and ll[0][1] == "Matched address: %s" and ll[0][2] == want
             else:
                 ok = al == [] and mo._matched is False
                 okl = ll == []
@@ -380,7 +401,7 @@ def modes():
                     orig_pb = J.match.ProducerBuilder.build
                     orig_fa = J.consumer.CompleteConsumer.get_first_addr_from_regex_result
                     J.match.ProducerBuilder.build = staticmethod(lambda file_type, assembly_style=None: (calls.append(("producer", file_type, assembly_style)), ProducerStub(calls))[1])
-                    J.consumer.CompleteConsumer.get_first_addr_from_regex_result = staticmethod(lambda t: Name("addr(" + t.ident + ")"))
+                    J.consumer.CompleteConsumer.get_first_addr_from_regex_result = staticmethod(addr_stub)
                     try:
                         mop = J.match.MasterOfPuppets.__new__(J.match.MasterOfPuppets)
                         mop.match_config = J.gd.MatchConfig(
